@@ -2,7 +2,8 @@
 // (one case per input line, one answer line per case), and calls the optimal-rotation code directly.
 //   E <natoms> <hascell> <lx> <ly> <lz> <m q x y z>*natoms | <config, ';' = newline>
 //        -> "ok <values of all variables, hex>"  or  "err <class>"
-//   P <x y z>*natoms        re-evaluate the configuration of the last E line at new positions
+//   P <x y z>*natoms        re-evaluate the configuration of the last E line at new positions (next step)
+//   R <N>                   start a new run of the same session at absolute step N
 //   ROT <n> <pos1: 3n> <pos2: 3n>   rotation::calc_optimal_rotation(pos1, pos2):
 //        -> C(9) S(16) eigval(4) eigvec(16, rows) q(4)
 //   QFUN <q0 q1 q2 q3> <ax ay az>   -> rotation_matrix(9) spin_angle cos_theta   (q used as given)
@@ -84,6 +85,13 @@ int main()
       if (!configured) { o << "err noconfig\n"; continue; }
       for (int i = 0; i < S.eng.natoms; i++) S.eng.pos[i] = v3();
       evaluate();
+    } else if (cmd == "R") {
+      // R <N>: a new run of the same session starts at absolute step N (the engine calls set_initial_step(N));
+      // the next P line is the first step of that run
+      if (!configured) { o << "err noconfig\n"; continue; }
+      S.proxy->colvars->set_initial_step(atol(a[p++].c_str()));
+      S.proxy->first_step = true;
+      o << "ok\n";
     } else if (cmd == "ROT") {
       int n = ni();
       std::vector<cvm::atom_pos> p1(n), p2(n);
